@@ -10,7 +10,7 @@ fd, xml = tempfile.mkstemp(suffix='.xml'); os.close(fd)
 env = dict(os.environ); env.pop('DJPUGH_MTFIT_VERIF', None)
 cmd = ['/venv/bin/python', '-m', 'pytest', '-ra', '-q', '-p', 'no:cacheprovider', '--timeout=900',
        '--continue-on-collection-errors', '--junitxml=' + xml] + paths
-p = subprocess.run(cmd, cwd='/repo', env=env, stdout=subprocess.PIPE, stderr=subprocess.STDOUT, text=True)
+p = subprocess.run(cmd, cwd=os.environ.get('MTFIT_BASELINE_REPO', '/repo'), env=env, stdout=subprocess.PIPE, stderr=subprocess.STDOUT, text=True)
 passed, other = set(), set()
 for tc in ET.parse(xml).getroot().iter('testcase'):
     name = tc.get('classname') + '::' + tc.get('name')
